@@ -33,18 +33,18 @@ _GEN_C17 = dict(
            _g("timeout", "edges", 7, "timeout-edges", max=6),
            _g("forced", "edges", 9, "forced-schedules", max=6),
            _g("del", "sim", 11, "deletion-walks", num=12, max=16, salt=1)],
-    thorough=[_g("core", "edges", 10, "core-edges", max=500),
-              _g("del", "edges", 9, "deletion-edges", max=900),
-              _g("late", "edges", 10, "late-response-edges", max=150),
-              _g("timeout", "edges", 8, "timeout-edges", max=80),
-              _g("forced", "edges", 10, "forced-schedules", max=60),
-              _g("del", "sim", 14, "deletion-walks", num=120, max=400, salt=1),
-              _g("all", "sim", 14, "mixed-walks", num=120, max=300, salt=2)])
+    thorough=[_g("core", "edges", 10, "core-edges", max=300),
+              _g("del", "edges", 9, "deletion-edges", max=500),
+              _g("late", "edges", 10, "late-response-edges", max=100),
+              _g("timeout", "edges", 8, "timeout-edges", max=40),
+              _g("forced", "edges", 10, "forced-schedules", max=40),
+              _g("del", "sim", 14, "deletion-walks", num=120, max=250, salt=1),
+              _g("all", "sim", 14, "mixed-walks", num=120, max=200, salt=2)])
 
 _GEN_C37 = dict(
     # one history per (discovery state, shape of the injected message) edge, continued by well-formed steps
     quick=[_g("mal", "edges", 8, "malformed-edges", max=70)],
-    thorough=[_g("mal", "edges", 10, "malformed-edges", max=1500)])
+    thorough=[_g("mal", "edges", 10, "malformed-edges", max=800)])
 
 
 def _ops(s):
